@@ -13,9 +13,11 @@ pub struct Case {
     pub shape: Shape,
     /// multipath tuples of different lengths: must be rejected (at parse or at split)
     pub mismatch: bool,
+    /// a malformed key expression: must be rejected at parse (expected error kind)
+    pub reject: Option<&'static str>,
 }
 
-pub const N_CORPUS: u64 = 8;
+pub const N_CORPUS: u64 = 16;
 
 fn xkey(xk: usize, pre: Vec<ChildNumber>, alts: Vec<ChildNumber>, post: Vec<ChildNumber>, wild: u8) -> GKey {
     GKey::X { xk, with_origin: false, pre, alts, post, wild, xprv: false }
@@ -33,6 +35,7 @@ fn corpus(w: &World, id: u64) -> Case {
             keys: vec![single(0, 0), single(0, 1)],
             shape: Shape::Sh(Ms::SortedMulti(1, vec![0, 1])),
             mismatch: false,
+            reject: None,
         },
         // an uncompressed key whose compressed form sorts before a compressed key
         1 => {
@@ -52,6 +55,7 @@ fn corpus(w: &World, id: u64) -> Case {
                 keys: vec![single(pick.0, 1), single(pick.1, 0)],
                 shape: Shape::Sh(Ms::SortedMulti(2, vec![0, 1])),
                 mismatch: false,
+            reject: None,
             }
         }
         // tuple lengths differ between the internal key (3) and a leaf key (2)
@@ -64,6 +68,7 @@ fn corpus(w: &World, id: u64) -> Case {
             ],
             shape: Shape::Tr(0, vec![(0, Ms::Pk(1))]),
             mismatch: true,
+            reject: None,
         },
         3 => Case {
             id,
@@ -74,6 +79,7 @@ fn corpus(w: &World, id: u64) -> Case {
             ],
             shape: Shape::Tr(0, vec![(0, Ms::Pk(1))]),
             mismatch: true,
+            reject: None,
         },
         // a tuple whose first two alternatives coincide
         4 => Case {
@@ -82,6 +88,7 @@ fn corpus(w: &World, id: u64) -> Case {
             keys: vec![xkey(2, vec![n(5)], vec![n(0), n(0), n(1)], vec![], 1)],
             shape: Shape::Wpkh(0),
             mismatch: false,
+            reject: None,
         },
         5 => Case {
             id,
@@ -92,6 +99,7 @@ fn corpus(w: &World, id: u64) -> Case {
             ],
             shape: Shape::Wsh(Ms::Multi(2, vec![0, 1])),
             mismatch: true,
+            reject: None,
         },
         // two leaves with different tuple lengths, single internal key
         6 => Case {
@@ -104,6 +112,63 @@ fn corpus(w: &World, id: u64) -> Case {
             ],
             shape: Shape::Tr(0, vec![(1, Ms::Pk(1)), (1, Ms::Pk(2))]),
             mismatch: true,
+            reject: None,
+        },
+        // a repeated index in other positions of the tuple
+        8 | 9 | 10 => {
+            let alts = match id {
+                8 => vec![n(0), n(0)],
+                9 => vec![n(0), n(1), n(0)],
+                _ => vec![n(0), n(1), n(1)],
+            };
+            Case {
+                id,
+                stream: "corpus",
+                keys: vec![xkey(1, vec![n(3)], alts, vec![], 1)],
+                shape: if id == 9 { Shape::Pkh(0) } else { Shape::Wpkh(0) },
+                mismatch: false,
+                reject: None,
+            }
+        }
+        // two tuples
+        11 => Case {
+            id,
+            stream: "corpus",
+            keys: vec![GKey::Raw {
+                xk: 0,
+                text: "/<0;1>/<2;3>/*",
+                toks: "[TAlts [St false 0; St false 1]; TAlts [St false 2; St false 3]; TWild WUnhardened]",
+            }],
+            shape: Shape::Wpkh(0),
+            mismatch: false,
+            reject: None,
+        },
+        // a step after the wildcard
+        12 => Case {
+            id,
+            stream: "corpus",
+            keys: vec![GKey::Raw { xk: 0, text: "/7/*/1", toks: "[TStep (St false 7); TWild WUnhardened; TStep (St false 1)]" }],
+            shape: Shape::Wpkh(0),
+            mismatch: false,
+            reject: None,
+        },
+        // BIP32 depth: 255 steps and a wildcard below a depth-0 xpub is one too many, 254 is not
+        13 | 14 => Case {
+            id,
+            stream: "corpus",
+            keys: vec![xkey(0, (0..(if id == 13 { 255 } else { 254 })).map(|i| n(i % 3)).collect(), vec![], vec![], 1)],
+            shape: Shape::Wpkh(0),
+            mismatch: false,
+            reject: None,
+        },
+        // an xpub that is already at depth 255, with nothing but a wildcard after it
+        15 => Case {
+            id,
+            stream: "corpus",
+            keys: vec![xkey(NXK, vec![], vec![], vec![], 1)],
+            shape: Shape::Wpkh(0),
+            mismatch: false,
+            reject: None,
         },
         // sortedmulti_a over x-only keys and a full key
         _ => Case {
@@ -112,6 +177,7 @@ fn corpus(w: &World, id: u64) -> Case {
             keys: vec![single(5, 2), single(6, 2), single(7, 0), single(8, 2)],
             shape: Shape::Tr(0, vec![(0, Ms::SortedMultiA(2, vec![1, 2, 3]))]),
             mismatch: false,
+            reject: None,
         },
     }
 }
@@ -292,7 +358,15 @@ fn gen_ms(r: &mut Rng, kind: u64, nk: &mut usize) -> Ms {
 
 pub fn gen_case(w: &World, seed: u64, id: u64) -> Case {
     if id < N_CORPUS {
-        return corpus(w, id);
+        let mut c = corpus(w, id);
+        c.reject = match id {
+            4 | 8 | 9 | 10 => Some("InvalidMultiIndexStep"),
+            11 => Some("MultipleDerivationPathIndexSteps"),
+            12 => Some("InvalidWildcardInDerivationPath"),
+            13 | 15 => Some("DerivationPathTooLong"),
+            _ => None,
+        };
+        return c;
     }
     let mut r = Rng::new(seed.wrapping_mul(0x2545F4914F6CDD1D) ^ id.wrapping_mul(0x9E3779B97F4A7C15));
     r.next();
@@ -369,5 +443,5 @@ pub fn gen_case(w: &World, seed: u64, id: u64) -> Case {
         mismatch = lens.len() > 1;
     }
     let stream = if stream == "mismatch" && !mismatch { "main" } else { stream };
-    Case { id, stream, keys, shape, mismatch }
+    Case { id, stream, keys, shape, mismatch, reject: None }
 }
